@@ -19,7 +19,13 @@ META = {
         'are filtered by rank equality before any scan, the three match modes '
         'are an exhaustive >0 / <0 / else split and their comparisons have the '
         'direction "not greater" / "not smaller"; (rank) the rank function is '
-        'the one C02 checks.'),
+        'the one C02 checks; (memo/slotmemo) memoised helpers do not conflate '
+        'logicals and numbers, and a vector memoised in a slot of the criteria '
+        'range (test_range[\'num\']) is computed from that range alone, not '
+        'from the criterion of the call that happened to fill it; (nomut) the '
+        'lookup and criteria cores and their argument parsers never write in '
+        'place to the arrays they receive (text keys are upper-cased on '
+        'copies).'),
     'not_decided': (
         'Positions returned for all key vectors, wildcard translation, INDEX '
         'addressing - value-level case analysis.'),
@@ -377,9 +383,10 @@ def run(ctx):
              'SUMIF', 'AVERAGEIF')
     regs = [ctx.registry.functions[n] for n in names
             if n in ctx.registry.functions]
-    from .common import rule_slotmemo
+    from .common import rule_slotmemo, nomut_for
     fm = [f for f in ctx.project.functions.values()
           if f.module.rel.startswith('formulas/functions/')]
     return [rule_core(ctx), rule_typed(ctx), r,
             rule_memo(ctx, 'C19', 'C19.memo', regs),
-            rule_slotmemo(ctx, 'C19', 'C19.slotmemo', fm)]
+            rule_slotmemo(ctx, 'C19', 'C19.slotmemo', fm),
+            nomut_for(ctx, 'C19', 'C19.nomut', regs, floor=20)]
